@@ -809,6 +809,14 @@ class Run:
       self.report('R-CONTINUE', 'run continued after restart from durable state left the '
                   'reference trajectory: ' + bad, i, event='ADVANCE')
     else:
+      # combinators are fine on the clean twin, no mesh, no restart: the deployed run
+      # itself went wrong (e.g. state leaking between calls). If its state breaks a
+      # structural invariant that is a C11 matter; otherwise report the divergence.
+      for world, st, coords in (('sut', sut.state, sut.coords),):
+        for oracle, msg in self.monitor.check(st, coords, sut.n, ref.times[sut.n],
+                                              self.job['dt'], world):
+          self.report(oracle, msg + ' (and the run left the reference trajectory)', i,
+                      event='ADVANCE')
       self.report('R-ADVANCE', 'SUT differs from the plain sequential loop: ' + bad, i,
                   event='ADVANCE')
 
@@ -1235,7 +1243,9 @@ MIX = {
 
 def draw_layout(rng, job, prop, max_devices=8):
   r = rng.random()
-  p_mesh = {'C07': 0.8, 'C11': 0.2, 'C19': 0.8, 'C14': 0.0}[prop]
+  # C11 runs never use a device mesh: an invariant broken only under sharding is a
+  # C07 matter and must not raise a C11 alarm (padded single-device layouts stay)
+  p_mesh = {'C07': 0.8, 'C11': 0.0, 'C19': 0.8, 'C14': 0.0}[prop]
   if r < 0.15:
     return {}
   if rng.random() < p_mesh:
